@@ -473,7 +473,13 @@ impl<I: Hash + Eq, A: Hash + Eq> Game<I, A> {
         T::ChanceInfo: Hash + Eq,
     {
         match node.into_game_node() {
-            GameNode::Terminal(payoff) => Ok(Node::Terminal(payoff)),
+            GameNode::Terminal(payoff) => {
+                if payoff.is_finite() {
+                    Ok(Node::Terminal(payoff))
+                } else {
+                    Err(GameError::NonFinitePayoff)
+                }
+            }
             GameNode::Chance(info, raw_outcomes) => {
                 let mut probs = Vec::new();
                 let mut outcomes = Vec::new();
